@@ -42,6 +42,7 @@ Tpl(name) ==
       [] name = "C"   -> <<PPos, Lit(<<47>>), PLen>>
       [] name = "MC"  -> <<PMsg, PPos>>
       [] name = "KM"  -> <<PKey, PMsg>>
+      [] name = "KC"  -> <<PKey, PMsg>>
 
 (* Text a template part expands to.  Tabs in the message, the prefix,      *)
 (* template literals and custom-key output all become tabw spaces (C16).   *)
@@ -141,7 +142,8 @@ Apply(S, r) ==
       [] r.op = "dec_length"    -> Plain(Req(SetBar(S, b, [B EXCEPT !.len = IF B.len = NoLen THEN NoLen ELSE SatSub(B.len, r.n)]), b))
       [] r.op = "set_message"   -> Plain(Req(SetBar(S, b, [B EXCEPT !.msg = r.m]), b))
       [] r.op = "set_prefix"    -> Plain(Req(SetBar(S, b, [B EXCEPT !.prefix = r.m]), b))
-      [] r.op = "set_style"     -> Plain(SetBar(S, b, [B EXCEPT !.tpl = r.tpl]))            \* documented: does not redraw
+      [] r.op \in {"set_style", "restyle"} -> Plain(SetBar(S, b, [B EXCEPT !.tpl = r.tpl]))   \* documented: does not redraw
+                                                                                              \* (restyle = style().template(..) put back with set_style)
       [] r.op = "set_tab_width" -> Res(Req(SetBar(S, b, [B EXCEPT !.tabw = r.n]), b), <<>>, vis, FALSE)
       [] r.op = "reset"         -> Plain(Req(SetBar(S, b, [B EXCEPT !.pos = 0, !.fin = "no", !.born = r.t]), b))   \* also restarts the elapsed time
       [] r.op = "reset_elapsed" -> Plain(SetBar(S, b, [B EXCEPT !.born = r.t]))
